@@ -39,6 +39,10 @@ func checkDiff(c DiffCase) error {
 	if errNil := decode.Decode(nil, append([]byte{}, c.Bytes...)); (errNil == nil) != (err == nil) {
 		return harness.Violatef("c03/no-destination-verdict", "Decode without a Destination says %v, with one %v", errNil, err)
 	}
+	// metadata-only decoding judges the magic and the metadata chunks by the same rules
+	if _, errVB := decode.DecodeViewBox(append([]byte{}, c.Bytes...)); (errVB == nil) != p.MetaOK {
+		return harness.Violatef("c03/viewbox-verdict", "DecodeViewBox says %v, the specification says the magic and metadata are well formed: %v (%s)", errVB, p.MetaOK, p.Err)
+	}
 	if (err == nil) != p.OK {
 		if p.OK {
 			return harness.Violatef("c03/rejects-well-formed", "decoder rejects (%v) a string the specification accepts", err)
